@@ -40,6 +40,16 @@ func typeHasEnum(t *parser.Type, visited map[*parser.Type]bool) bool {
 	return typeHasEnum(t.KeyType, visited) || typeHasEnum(t.ValueType, visited)
 }
 
+func ctxHasEnum(c *golang.ReadWriteContext) bool {
+	if c == nil {
+		return false
+	}
+	if c.Type.Category == parser.Category_Enum {
+		return true
+	}
+	return ctxHasEnum(c.KeyCtx) || ctxHasEnum(c.ValCtx)
+}
+
 func (g *FastGoBackend) genFastRead(w *codewriter, scope *golang.Scope, s *golang.StructLike) {
 	// var conventions:
 	// - p is the var of pointer to the struct going to be generated
@@ -67,6 +77,8 @@ func (g *FastGoBackend) genFastRead(w *codewriter, scope *golang.Scope, s *golan
 	for _, f := range ff {
 		if typeHasEnum(f.Type, nil) {
 			hasEnum = true
+		} else if rwctx, err := g.utils.MkRWCtx(scope, f); err == nil && ctxHasEnum(rwctx) {
+			hasEnum = true // containers behind a typedef: only the contexts follow the typedef
 		}
 		if f.Requiredness == parser.FieldType_Required {
 			isset.Add(f)
